@@ -217,6 +217,17 @@ fn run(cmd: &str, args: &[String], seed: u64, rep: &mut Report) {
             let all = layout::LayoutSet::load(arg(&args, "--layouts").unwrap());
             c08::replay(&ctx, &all, &read_ndjson(arg(&args, "--in").unwrap()), seed, arg_u64(&args, "--reps", 1) as usize, &mut rep);
         }
+        "reassembly-trace" => {
+            let ctx = valve::Ctx {
+                layouts: layout::LayoutSet::load(arg(&args, "--layouts").unwrap()),
+                templates: template::Templates::load(arg(&args, "--templates").unwrap()),
+                drift: drift_ids(),
+            };
+            let all = layout::LayoutSet::load(arg(&args, "--layouts").unwrap());
+            let mut trace = Vec::new();
+            c08::trace_random(&ctx, &all, seed, arg_u64(&args, "--runs", 1000) as usize, &mut rep, &mut trace);
+            write_ndjson(arg(&args, "--out-trace").unwrap(), &trace);
+        }
         "fuzz" => {
             let threads = arg_u64(&args, "--threads", 8) as usize;
             let stage = arg(&args, "--stage").unwrap_or("bytes").to_string();
